@@ -331,6 +331,18 @@ pub fn str_to_dec(lit: &str) -> Result<(i128, isize), ParseDecimalError> {
     }
 }
 
+/// Entry points for the verification machinery (see `crate::verif_hooks`).
+#[cfg(fpdec_verif)]
+pub(crate) mod verif {
+    pub fn chunk_contains_8_digits(chunk: u64) -> bool {
+        super::chunk_contains_8_digits(chunk)
+    }
+
+    pub fn chunk_to_u64(chunk: u64) -> u64 {
+        super::chunk_to_u64(chunk)
+    }
+}
+
 #[cfg(test)]
 mod tests {
     use super::*;
